@@ -1098,7 +1098,7 @@ func (interp *Interpreter) cfg(root *node, sc *scope, importPath, pkgName string
 				n.typ = dest.typ
 				n.findex = dest.findex
 				n.level = dest.level
-			case n.anc.kind == returnStmt:
+			case isResultOf(n, sc):
 				// To avoid a copy in frame, if the result is to be returned, store it directly
 				// at the frame location reserved for output arguments.
 				n.findex = childPos(n)
@@ -1357,7 +1357,7 @@ func (interp *Interpreter) cfg(root *node, sc *scope, importPath, pkgName string
 				wireChild(n)
 				if typ := c0.typ; len(typ.ret) > 0 {
 					n.typ = typ.ret[0]
-					if n.anc.kind == returnStmt && n.typ.id() == sc.def.typ.ret[0].id() {
+					if isResultOf(n, sc) && n.typ.id() == sc.def.typ.ret[0].id() {
 						// Store the result directly to the return value area of frame.
 						// It can be done only if no type conversion at return is involved.
 						n.findex = childPos(n)
@@ -1395,7 +1395,7 @@ func (interp *Interpreter) cfg(root *node, sc *scope, importPath, pkgName string
 					case "unsafe.alignOf", "unsafe.Offsetof", "unsafe.Sizeof":
 						n.gen = nop
 					}
-				case n.anc.kind == returnStmt:
+				case isResultOf(n, sc):
 					// Store result directly to frame output location, to avoid a frame copy.
 					n.findex = childPos(n)
 				case bname == "cap" && (isInConstOrTypeDecl(n) || isConstLenArg(n.child[1])):
@@ -1509,7 +1509,7 @@ func (interp *Interpreter) cfg(root *node, sc *scope, importPath, pkgName string
 						}
 					} else {
 						n.typ = valueTOf(typ.Out(0))
-						if n.anc.kind == returnStmt {
+						if isResultOf(n, sc) {
 							n.findex = childPos(n)
 						} else {
 							n.findex = sc.add(n.typ)
@@ -1566,7 +1566,7 @@ func (interp *Interpreter) cfg(root *node, sc *scope, importPath, pkgName string
 				}
 				if typ := c0.typ; len(typ.ret) > 0 {
 					n.typ = typ.ret[0]
-					if n.anc.kind == returnStmt && n.typ.id() == sc.def.typ.ret[0].id() {
+					if isResultOf(n, sc) && n.typ.id() == sc.def.typ.ret[0].id() {
 						// Store the result directly to the return value area of frame.
 						// It can be done only if no type conversion at return is involved.
 						n.findex = childPos(n)
@@ -2503,7 +2503,7 @@ func (interp *Interpreter) cfg(root *node, sc *scope, importPath, pkgName string
 				n.typ = dest.typ
 				n.findex = dest.findex
 				n.level = dest.level
-			case n.anc.kind == returnStmt && !isInterface(sc.def.typ.ret[childPos(n)]):
+			case isResultOf(n, sc) && !isInterface(sc.def.typ.ret[childPos(n)]):
 				pos := childPos(n)
 				n.typ = sc.def.typ.ret[pos]
 				n.findex = pos
@@ -3619,6 +3619,14 @@ func isConstNumber(n *node) bool {
 // isConstString returns true if node is an untyped string constant, possibly folded.
 func isConstString(n *node) bool {
 	return n.rval.IsValid() && isConstantValue(n.rval.Type()) && vConstantValue(n.rval).Kind() == constant.String
+}
+
+// isResultOf returns true if the value of n can be computed in place in the
+// result of the enclosing function which a return statement sets from it. This
+// is not the case for a function with several named results: another value of
+// the statement may be a result variable, to read before it is overwritten.
+func isResultOf(n *node, sc *scope) bool {
+	return n.anc.kind == returnStmt && (len(n.anc.child) == 1 || !namedResults(sc.def))
 }
 
 func isBlank(n *node) bool {
